@@ -170,11 +170,14 @@ fn render_opts(m: &SrcModel, style: Style, model_names: bool, emit_where: bool) 
 }
 
 /// reference interpreter: exact optimum over the declared (bounded) domains; None = infeasible
+/// With one continuous variable the answer is exact. With several, the others range over a rational grid:
+/// the result is then the best *witness* found (an inner approximation: a feasible point with that
+/// objective exists, better ones may exist) and `exact_reference` is false.
+fn exact_reference(m: &SrcModel) -> bool {
+    m.continuous_vars().len() <= 1
+}
 fn reference_optimum(m: &SrcModel) -> Option<Result<Option<(Q, Env)>, String>> {
     let cont: Vec<String> = m.continuous_vars().iter().map(|&i| m.vars[i].0.clone()).collect();
-    if cont.len() > 1 {
-        return None;
-    }
     let x = cont.first().cloned();
     if let Some(x) = &x {
         let under = m.cons.iter().any(|c| occurs_under_logic(&c.lhs, x, false) || occurs_under_logic(&c.rhs, x, false)) || occurs_under_logic(&m.obj, x, false);
@@ -200,7 +203,7 @@ fn reference_optimum(m: &SrcModel) -> Option<Result<Option<(Q, Env)>, String>> {
             Err(e) => Err(format!("{:?}", e)),
         }
     };
-    for d in discrete_assignments(m, x.as_deref(), &[]) {
+    for d in discrete_assignments(m, x.as_deref(), &crate::props::c01::grid()) {
         match &x {
             None => {
                 if let Err(e) = consider(&d, &mut best) {
@@ -250,7 +253,12 @@ fn check_case(case: &Case, l: &mut Local) {
             return;
         }
     };
-    l.count(if reference.is_some() { "reference:feasible" } else { "reference:infeasible" });
+    let exact = exact_reference(m);
+    if exact {
+        l.count(if reference.is_some() { "reference:feasible" } else { "reference:infeasible" });
+    } else {
+        l.count(if reference.is_some() { "witness-reference:feasible-point-known" } else { "witness-reference:no-feasible-point-among-the-test-points" });
+    }
     for (style, sname) in STYLES {
         let text = render(m, style);
         l.count("texts");
@@ -270,7 +278,16 @@ fn check_case(case: &Case, l: &mut Local) {
             }
             Ok(Ok(r)) => r,
         };
-        match (result, &reference) {
+        // with a witness reference nothing is known about a model without a feasible test point
+        let unknown: (Q, Env) = (q(0), Env::new());
+        let reference_view: Option<&(Q, Env)> = match (&reference, exact) {
+            (Some(r), _) => Some(r),
+            (None, false) => Some(&unknown),
+            (None, true) => None,
+        };
+        let witness_only = !exact;
+        let nothing_known = !exact && reference.is_none();
+        match (result, reference_view) {
             (Ok(sol), Some((zstar, _))) => {
                 l.count("answer:solution");
                 l.nontrivial(&text);
@@ -343,6 +360,14 @@ fn check_case(case: &Case, l: &mut Local) {
                     let at = eval(&m.obj, &env).map(|v| to_f64(&v)).unwrap_or(f64::NAN);
                     if (sol.value() - at).abs() > eps * at.abs().max(1.0) {
                         l.violation(sig("reported-objective-differs-from-text-objective"), format!("reported {} but the text's objective at the returned values is {at}", sol.value()), case_json(format!("{}", sol)));
+                    } else if nothing_known {
+                        l.count("witness-reference:only-the-certificate-checked");
+                    } else if witness_only {
+                        // a feasible point with objective z exists: the reported optimum must not be worse
+                        let worse = if m.sense == Sense::Max { sol.value() < z - eps * z.abs().max(1.0) } else { sol.value() > z + eps * z.abs().max(1.0) };
+                        if worse {
+                            l.violation(sig("not-optimal"), format!("reported optimum {} but a satisfying assignment with objective {z} exists", sol.value()), case_json(format!("{}", sol)));
+                        }
                     } else if (sol.value() - z).abs() > eps * z.abs().max(1.0) {
                         l.violation(sig("not-optimal"), format!("reported optimum {} but the true optimum is {z}", sol.value()), case_json(format!("{}", sol)));
                     }
@@ -357,6 +382,16 @@ fn check_case(case: &Case, l: &mut Local) {
                     RoocSolverError::Solver(_) => "other-solver-error",
                 };
                 l.violation(format!("infeasible-text-answered-with-{kind}:{}", case.signature), format!("no assignment satisfies the text; expected the solver's infeasible verdict, got {e}"), case_json(format!("{e}")));
+            }
+            (Err(RoocSolverError::Solver(SolverError::Infeasible)), Some(_)) if nothing_known => l.count("witness-reference:infeasible-verdict-not-decided"),
+            (Err(e), Some(_)) if nothing_known => {
+                // even without a reference a text over bounded domains is never answered with a compilation error
+                let kind = match &e {
+                    RoocSolverError::Transform(_) => "transform-error",
+                    RoocSolverError::Linearization(_) => "linearization-error",
+                    RoocSolverError::Solver(_) => "other-solver-error",
+                };
+                l.violation(format!("text-answered-with-{kind}:{}", case.signature), format!("expected a solution or the infeasible verdict, got {e}"), case_json(format!("{e}")));
             }
             (Err(e), Some(_)) => {
                 let kind = match &e {
@@ -380,13 +415,24 @@ pub fn run(mut run: Run) -> ! {
     let depth = if quick { 2 } else { 3 };
     let ncores = crate::props::c01::cores().len();
     run.rule = format!("generator-AST models over bounded declarations (objective family: min/max of {ncores} cores in every chain of <= {depth} contexts x 4 declaration sets x 5 side-constraint sets; constraint family: the C01 core-in-context constraints with bounded declarations and objective max x / satisfy) are rendered to source TEXT in 3 spelling classes (keywords with explicit operators; symbolic aliases && || ! -> <-> with implicit multiplication and 'subject to'; fractional literals moved into where-constants with named rows and all/any blocks; a sum of n terms divided by n is written as an avg block in the first and third class) and solved with RoocSolver::try_new(text).solve_using(auto_solver); judged by an independent interpreter of the AST (exact optimum over the discrete domains x breakpoints of the continuous variable); distinct = source texts; non-trivial = a solution was returned");
-    run.assume("reference interpreter = refsem evaluator + breakpoint enumeration: a piecewise-linear objective over a closed bounded piecewise-linear set attains its optimum at a breakpoint; at most one continuous variable per model; tolerance 1e-6");
+    run.assume("reference interpreter = refsem evaluator + breakpoint enumeration: a piecewise-linear objective over a closed bounded piecewise-linear set attains its optimum at a breakpoint; exact for models with at most one continuous variable; tolerance 1e-6");
+    run.assume("models with several continuous variables (families OD, D): the others range over a 9-point rational grid, so the reference is a witness (a feasible point with that objective exists): the returned values must satisfy the text, the reported objective must equal the text objective there and must not be worse than the witness; an infeasible verdict is only refuted by a witness");
     let n2 = c02::family_size_pub(depth.min(2), false);
     run.family("O-objective-texts", n2, move |i, l| {
         let c = c02::family_pub(i, depth.min(2), false);
         check_case(&c, l);
     });
     let na = family_a_size(depth, false);
+    let ddepth = if quick { 0 } else { 1 };
+    run.family("OD-objectives-over-several-continuous-variables", c02::family_d_size(ddepth), move |i, l| check_case(&c02::family_d(i, ddepth), l));
+    run.family("D-constraints-over-several-continuous-variables", crate::props::c01::family_d_size(ddepth), move |i, l| {
+        let mut c = crate::props::c01::family_d(i, ddepth);
+        if i % 2 == 0 {
+            c.model.sense = Sense::Max;
+            c.model.obj = var("x");
+        }
+        check_case(&c, l);
+    });
     run.family("A-constraint-texts", na, move |i, l| {
         let mut c = family_a(i, depth, false);
         // give the feasibility models an objective on the continuous/integer variable
